@@ -9,12 +9,17 @@
           | "vacuum"
           | "analyze" <permille> <max>      ANALYZE with sample rate permille/1000 and at most <max> sampled rows
           | "mkix"                          the point at which the *late* database of the harness creates the indexes
+          | "batch" | "endbatch"            the INSERT / UPDATE / DELETE statements in between run as one Database::execute_batch
+                                            (one transaction; for the specification: the statements one after the other)
 
   answer := OUT (" ; " OUT)*   one per op
   OUT    := "same " R          a query: every plan variant of the harness returned R (R as in Driver/Sql: Rset:/Rord:/Rlist:)
-          | "A"<n> | "E"<class>            INSERT / UPDATE / DELETE
-          | "ok"                           begin, rollback, commit, vacuum, analyze, mkix
+          | "A"<n> | "E"<class>            INSERT / UPDATE / DELETE (Econstraint: a second row with the key of a unique index)
+          | "ok"                           begin, rollback, commit, vacuum, analyze, mkix, batch, endbatch
           | "-"                            not compared (after a failed DML statement)
+
+  Two further kinds of lines: `rule <TABLES> <IX> | <PLAN>` (what every transformation rule makes of the root of a plan) and
+  `ord <DELIVERED> <REQUIRED>` (PhysicalProperties::satisfies); their syntax is given where they are handled, below.
 
   The specification is the reference evaluator of C05 run over the history: indexes, statistics, VACUUM and the
   placement of index creation do not exist in it (`stats_irrelevant`), a rolled-back session leaves no trace.
@@ -30,7 +35,7 @@ open AxVerif AxVerif.Sql AxVerif.Index
 
 inductive Op where
   | stmt (s : Stmt)
-  | begin | rollback | commit | vacuum | analyze | mkix
+  | begin | rollback | commit | vacuum | analyze | mkix | batch | endbatch
 
 def parseIx (w : String) : Option (Nat × List Nat) :=
   match w.splitOn ":" with
@@ -52,6 +57,8 @@ def parseOp (db : Db) (ws : List String) : Option Op :=
   | ["commit"] => some .commit
   | ["vacuum"] => some .vacuum
   | ["mkix"] => some .mkix
+  | ["batch"] => some .batch
+  | ["endbatch"] => some .endbatch
   | ["analyze", r, m] => if isDec r && isDec m then some .analyze else none
   | _ => (pStmt db ws).map .stmt
 
@@ -96,6 +103,12 @@ def stepStore (D : Index.Defects) (st : Store) (db db' : Db) : Stmt → Store
     st.set t { tb with rows := tb.rows.filter (fun r => !(gone.any (fun g => g.1 == r.1))),
                        indexes := tb.indexes.map (fun ix => gone.foldl (fun ix r => ix.delete r.2) ix) }
 
+/-- every index is a UNIQUE index: no two rows with the same NULL-free key (what ConstraintValidator enforces) -/
+def storeUniqueB (st : Store) : Bool :=
+  st.all (fun tb => tb.indexes.all (fun ix =>
+    let ks := (rowPairs ix.cols tb.rows).map (·.1)
+    ks.length == ks.eraseDups.length))
+
 def storeConsistentB (st : Store) : Bool :=
   st.all (fun tb => tb.indexes.all (fun ix => consistentB ix tb.rows))
 
@@ -108,13 +121,15 @@ def storeMatches (st : Store) (db : Db) : Bool :=
 def fromSize (st : Store) : From → Nat
   | .table t => (st.getD t default).rows.length + 1
   | .join _ l r _ => fromSize st l * fromSize st r
+  | .derived f _ _ => fromSize st f
 
 def planDefects (flags : List String) : Plan.Defects :=
   { joinCommuteKeepsIndices := flags.contains "joinCommuteKeepsIndices"
     helpersSkipForms := flags.contains "helpersSkipForms"
     memoIgnoresPredicates := flags.contains "memoIgnoresPredicates"
     assocDropsBOnly := flags.contains "assocDropsBOnly"
-    indexScanIgnoresNullable := flags.contains "indexScanIgnoresNullable" }
+    indexScanIgnoresNullable := flags.contains "indexScanIgnoresNullable"
+    orderingPrefixEitherWay := flags.contains "orderingPrefixEitherWay" }
 
 /-- number of reachable plans checked, or the first plan that disagrees with the reference rows -/
 def crossCheck (D : Plan.Defects) (st : Store) (q : Select) (out : List Row) : Except String Nat :=
@@ -145,7 +160,7 @@ def stepOp (D : Sql.Defects) (PD : Plan.Defects) (ID : Index.Defects) (st : St) 
     let (db, store) := st.saved.getD (st.db, st.store)
     ({ st with db := db, store := store, saved := none }, "ok")
   | .commit => ({ st with saved := none }, "ok")
-  | .vacuum | .analyze | .mkix => (st, "ok")
+  | .vacuum | .analyze | .mkix | .batch | .endbatch => (st, "ok")
   | .stmt s =>
     let (db', o) := execStmt D nullsFirstOfEngine st.db s
     match s, o with
@@ -159,7 +174,8 @@ def stepOp (D : Sql.Defects) (PD : Plan.Defects) (ID : Index.Defects) (st : St) 
       if out.startsWith "E" then ({ st with failed := true }, out)
       else
         let store' := stepStore ID st.store st.db db' s
-        if !(storeMatches store' db') then ({ st with db := db', store := store' }, "MODEL-DISAGREES store " ++ out)
+        if !(storeUniqueB store') then ({ st with failed := true }, "Econstraint")
+        else if !(storeMatches store' db') then ({ st with db := db', store := store' }, "MODEL-DISAGREES store " ++ out)
         else if !(storeConsistentB store') && !ID.indexUpdateKeepsOldKey then
           ({ st with db := db', store := store' }, "MODEL-DISAGREES index-inconsistent " ++ out)
         else ({ st with db := db', store := store' }, out)
@@ -203,6 +219,16 @@ def showExprW : Expr → List String
   | .isNull n e => (if n then "notnull" else "isnull") :: showExprW e
   | .between n e lo hi => (if n then "nbtw" else "btw") :: (showExprW e ++ showExprW lo ++ showExprW hi)
   | .inList n e xs => ((if n then "nin" else "in") ++ toString xs.length) :: (showExprW e ++ showExprsW xs)
+  | .caseWhen parts => s!"case{parts.length / 2}" :: showCaseW parts
+  | .caseOf x parts => s!"casex{parts.length / 2}" :: (showExprW x ++ showCaseW parts)
+  | .strFn f e =>
+    (match f with | .upper => "upper" | .lower => "lower" | .length => "length" | .ltrim => "ltrim" | .rtrim => "rtrim")
+      :: showExprW e
+  | .concat a b => "cat" :: (showExprW a ++ showExprW b)
+def showCaseW : List Expr → List String
+  | [] => ["noelse"]
+  | [e] => "else" :: showExprW e
+  | c :: r :: rest => showExprW c ++ showExprW r ++ showCaseW rest
 def showExprsW : List Expr → List String
   | [] => []
   | e :: es => showExprW e ++ showExprsW es
@@ -280,10 +306,36 @@ def ruleStep (D : Plan.Defects) (line : String) : String :=
         | _ => "bad-op"
   | _ => "bad-op"
 
+/-! ### ordering cases: `ord <DELIVERED> <REQUIRED>` → does the delivered ordering satisfy the required one
+
+    DELIVERED := "-" | DK ("," DK)*     DK := "a"<col> | "d"<col> (a plain column, ascending / descending) | "x" | "y"
+                                              (an expression that is no plain column, ascending / descending)
+    REQUIRED  := "-" | RK ("," RK)*     RK := "a"<col> | "d"<col>
+    answer    := "sat" | "unsat"        PhysicalProperties::satisfies; `unsat` = extract_plan puts a Sort in between -/
+
+def parseOrdKey (w : String) : Option OrdKey :=
+  match numAfter "a" w with
+  | some c => some { col := c, asc := true }
+  | none => (numAfter "d" w).map fun c => { col := c, asc := false }
+
+def parseDKey (w : String) : Option DKey :=
+  if w == "x" || w == "y" then some none else (parseOrdKey w).map some
+
+def ordStep (D : Plan.Defects) (line : String) : String :=
+  match words line with
+  | ["ord", dw, rw] =>
+    let ds := if dw == "-" then some [] else allSome ((dw.splitOn ",").map parseDKey)
+    let rs := if rw == "-" then some [] else allSome ((rw.splitOn ",").map parseOrdKey)
+    match ds, rs with
+    | some ds, some rs => if satisfies D ds rs then "sat" else "unsat"
+    | _, _ => "bad-op"
+  | _ => "bad-op"
+
 end AxVerif.Plan
 
 namespace AxVerif.Drivers
 def plan (flags : List String) (line : String) : String :=
   if line.startsWith "rule " then AxVerif.Plan.ruleStep (AxVerif.Plan.planDefects flags) line
+  else if line.startsWith "ord " then AxVerif.Plan.ordStep (AxVerif.Plan.planDefects flags) line
   else AxVerif.Plan.step flags line
 end AxVerif.Drivers
